@@ -233,7 +233,11 @@ func sortedSchemaKeys(m map[schema.SchemaKey]*schema.BodySchema) []schema.Schema
 }
 
 func decodeSchemaKey(key schema.SchemaKey) (schema.DependencyKeys, error) {
-	var dk schema.DependencyKeys
+	// Only labels are decoded, as attribute values
+	// (cty.Value) cannot be decoded and are not needed here.
+	var dk struct {
+		Labels []schema.LabelDependent `json:"labels,omitempty"`
+	}
 	err := json.Unmarshal([]byte(key), &dk)
-	return dk, err
+	return schema.DependencyKeys{Labels: dk.Labels}, err
 }
